@@ -6,7 +6,7 @@ import kani
 
 
 def run_k_property(prop, crate, specs, *, functions, files, assumptions, explanation,
-                   level="other", flags=(), max_parallel=4, extra_cov=None):
+                   level="other", flags=(), max_parallel=4, extra_cov=None, pre_stage=None):
     """specs: list of dicts
          name      harness fn name
          tiers     subset of {"quick","thorough"} in which it runs
@@ -35,10 +35,15 @@ def run_k_property(prop, crate, specs, *, functions, files, assumptions, explana
         b["jobs"] = min(per_batch_jobs, len(b["harnesses"]))
         # terse/-j output is ~2.5x slower per harness; the timeout is per batch
         b["timeout"] = b["timeout"] * (2 if b["jobs"] > 1 else 1)
+    pre = pre_stage() if pre_stage is not None else None
     log("[%s] tier=%s: %d harnesses in %d cargo-kani batches (crate %s)" % (prop, T, len(active), nb, crate))
     results, metas = kani.run_batches(list(batches.values()), max_parallel=max_parallel)
 
     violations, known_lines, infra = [], [], []
+    if pre is not None:
+        violations += pre["violations"]
+        infra += pre["infra"]
+        extra_cov = dict(extra_cov or {}, **pre.get("cov", {}))
     for m in metas:
         if m["build_failed"]:
             infra.append("harness crate does not build against /repo's current tree: " + m["tail"][-600:].replace("\n", " | "))
